@@ -46,13 +46,17 @@ func (propC12) Gen(r *Rng, tier string) *World {
 	if r.P(0.4) {
 		k.FailOp = true
 	}
+	k.TupleOp = r.P(0.2)
+	if r.P(0.1) {
+		k.NVars = 0
+	}
 	g := NewGen(r, k)
 	w := &World{Prop: "C12"}
 	w.Prog = g.Program()
 	w.Cfg = g.C
 	w.Cfg.Event = []string{"report", "debug", "both"}[r.Intn(3)]
 	w.Cfg.ViaDirect = r.P(0.2)
-	w.Cfg.DirStyle = r.Intn(6)
+	w.Cfg.DirStyle = r.Intn(8)
 	w.Cfg.ViaAPI = r.P(0.4)
 	w.Masks = []int{r.Intn(16)}
 	ops := SpecMap(w.Cfg.Ops)
@@ -76,6 +80,11 @@ func (propC12) Gen(r *Rng, tier string) *World {
 		}
 	}
 	p.CtxDone = r.P(0.2)
+	noVars := len(referencedVars(w.Prog)) == 0
+	if noVars && r.P(0.5) {
+		p.NilCtx = true // no variable to read: the caller may pass no Ctx at all
+	}
+	p.RawErr = r.P(0.15) // the operators' errors must be carried, not rendered
 	aborts := false
 	if r.P(0.08) {
 		// a callback (fetcher or user operator) panics in the middle of the
@@ -109,6 +118,8 @@ func (propC12) Gen(r *Rng, tier string) *World {
 			q.AbortAt = 1 + r.Intn(6)
 			aborts = true
 		}
+		q.NilCtx = noVars && r.P(0.3)
+		q.RawErr = p.RawErr
 		w.Calls = append(w.Calls, q)
 	}
 	w.ChCap = []int{0, 0, 1, 2, 3, 8, -1}[r.Intn(7)] // -1 = ample
@@ -208,7 +219,7 @@ func checkEvents(w *World, ops map[string]*OpSpec, tree *Node, p *Plan, out *Out
 		if !ValEq(c.Args, toIfaces(d.Params)) {
 			return "event-args", fmt.Sprintf("OP_EXEC event of %s carries arguments %s; at call time they were %s", d.OpName, ValStr(toIfaces(d.Params)), ValStr(c.Args))
 		}
-		if (c.Err == nil) != (d.Err == nil) || (c.Err == nil && !ValEq(c.Res, d.Res)) {
+		if (c.Err == nil) != (d.Err == nil) || (c.Err == nil && !ValEq(c.Res, fromEngine(d.Res, 0))) {
 			return "event-result", fmt.Sprintf("OP_EXEC event of %s carries result %s err=%v; the call returned %v", d.OpName, ValStr(d.Res), d.Err, c)
 		}
 		if c.Err != nil && !errors.Is(d.Err, c.Err) {
@@ -269,7 +280,7 @@ func checkEvents(w *World, ops map[string]*OpSpec, tree *Node, p *Plan, out *Out
 			if !ValEq(a.Args, toIfaces(d.Params)) {
 				return "event-args", fmt.Sprintf("OP_EXEC event of %s carries arguments %s; the operator was applied to %s", d.OpName, ValStr(toIfaces(d.Params)), ValStr(a.Args))
 			}
-			if (a.Err == nil) != (d.Err == nil) || (a.Err == nil && !ValEq(a.Res, d.Res)) {
+			if (a.Err == nil) != (d.Err == nil) || (a.Err == nil && !ValEq(a.Res, fromEngine(d.Res, 0))) {
 				return "event-result", fmt.Sprintf("OP_EXEC event of %s%s carries %s err=%v; the application yields %s err=%v", d.OpName, ValStr(a.Args), ValStr(d.Res), d.Err, ValStr(a.Res), a.Err)
 			}
 		}
@@ -285,7 +296,7 @@ func checkEvents(w *World, ops map[string]*OpSpec, tree *Node, p *Plan, out *Out
 func toIfaces(ps []eval.Value) []interface{} {
 	r := make([]interface{}, len(ps))
 	for i, p := range ps {
-		r[i] = p
+		r[i] = fromEngine(p, 0) // a []eval.Value (what a params-returning operator yields) reads as a plain list
 	}
 	return r
 }
